@@ -7,14 +7,23 @@ records error class, a structural dump of the tree, `to_obj()`, `copy()`.
 
 Oracle answers shipped to the model (things decided by CPython, not by graphtage):
   * iteration order of every set/frozenset in the worker process (`set_orders`),
-  * per scalar: `eqc` (class of Python `==`), `str` (`str(obj)`), `num` (exact rational for int/float/bool),
+  * per scalar: `eqc` (class of `LeafNode.__eq__` on the payload: Python `==` with every NaN in the one class "nan"; the
+    bool / non-bool split of `LeafNode.__eq__` is modelled from the kind), `str` (`str(obj)`), `num` (exact rational for
+    int/float/bool; denominator 0 for the non-finite floats: [0,0] NaN, [1,0] +inf, [-1,0] -inf),
     `dec` (utf-8 decoding of bytes or null) -- computed by `_scalar_cell` below.
+
+Besides store cases there are PROBE cases (`{"probe": ..., "n": ...}`): inputs too deep to be dumped (lists nested 300-500 deep,
+dicts nested 16 / 1100 deep).  They are monitor-only: `impl` records outcome classes, node counts and a comparison counter.
 """
 import dataclasses
 import itertools
 from fractions import Fraction
 
 NAME = "build"
+# per-case watchdog of the worker.  A case needs milliseconds (the heaviest fixed DAG 0.3 s).  15 s, not the default 20 s: the
+# engine confirms a `hang` hit by re-running the case alone with 5x this limit, and common._run_chunk kills a single-case
+# worker after 85 s -- with the default the confirmation run would end as "WorkerDied" and a real hang would be dismissed.
+ENV = {"VERIF_CASE_TIMEOUT": "15"}
 
 OPT_KEYS = ("ake", "amk", "ale", "alesl", "chk", "ign")
 
@@ -123,8 +132,14 @@ def _scalar_cell(obj):
     k = _scalar_kind(obj)
     cell = {"t": k, "v": _scalar_text(obj), "mro": _mro(obj), "str": str(obj), "num": None, "dec": None,
             "sub": type(obj) in (MyInt, MyStr)}
-    if k in ("int", "bool", "float"):
-        fr = Fraction(obj)
+    if k == "float" and obj != obj:
+        cell["num"] = [0, 0]                       # NaN: every `<` is False, all NaN leaves are one == class
+        cell["eqc"] = "nan"
+    elif k == "float" and obj in (float("inf"), float("-inf")):
+        cell["num"] = [1 if obj > 0 else -1, 0]
+        cell["eqc"] = "n:inf" if obj > 0 else "n:-inf"
+    elif k in ("int", "bool", "float"):
+        fr = Fraction(obj)                         # -0.0 -> 0/1 (== 0 == 0.0), 1.0 -> 1/1 (== 1 == True as Python values)
         cell["num"] = [fr.numerator, fr.denominator]
         cell["eqc"] = "n:%d/%d" % (fr.numerator, fr.denominator)
     elif k == "str":
@@ -326,8 +341,15 @@ def store_features(store):
                 refs[j] = refs.get(j, 0) + 1
     if any(n > 1 for n in refs.values()):
         f.add("shared")
+    if any(c["t"] == "float" and c.get("num") and c["num"][1] == 0 for c in store):
+        f.add("nonfinite")
     for c in store:
         if c["t"] == "dict":
+            if sum(1 for k, _ in c["v"] if store[k].get("eqc") == "nan") >= 2:
+                # two distinct NaN objects as keys of ONE dict: legal Python (NaN != NaN), but as DATA (every NaN leaf is
+                # the same datum since graphtage 8b61c77) these are duplicate keys -- outside C18's domain, like the
+                # theorems' hypothesis "no two keys are equal" (`Plain`)
+                f.add("nankeys2")
             for k, _ in c["v"]:
                 kt = store[k]["t"]
                 if kt not in SCALARS:
@@ -382,7 +404,8 @@ def obj_key(d):
 # generation
 
 _INTS = [0, 1, 2, 3, -1, 7, 10 ** 20]
-_FLOATS = [0.5, -2.5, 1.0, 0.0, 1e300, 2.0]
+_NAN, _INF = float("nan"), float("inf")
+_FLOATS = [0.5, -2.5, 1.0, 0.0, 1e300, 2.0, -0.0, 3.0, 7.0, 1e20, -1.0, 5e-324, _NAN, _NAN, _INF, -_INF]
 _STRS = ["", "a", "b", "ab", "1", "True", "None", "x y"]
 _BYTES = [b"", b"a", b"ab", b"\xff"]
 
@@ -563,6 +586,10 @@ def _runs_for(rng, store, n_opts, exhaustive=False, opts_list=None, diff_same=Tr
         seen.add(key)
         runs.append({"entry": "basic", "opts": o})
         runs.append({"entry": "pydiff", "opts": o})
+        if "custom" in feats and not (feats & {"ckey", "cmember"}):
+            # a user-defined Builder subclass (as in the library documentation) with handlers for the custom classes, used in
+            # the SAME process right after BasicBuilder / PyObjBuilder have seen objects of those classes (monitor only)
+            runs.append({"entry": "userb", "opts": o})
         if not cyc and not (feats & JSON_OUT):
             runs.append({"entry": "json", "opts": o})
         # pydiff.diff(from, to, options) is an entry point too: it builds BOTH objects (monitor only, not modelled)
@@ -661,7 +688,172 @@ def _edge_cases():
     setattr(og, "__hidden", 1)
     og._p = 2
     objs.append(og)
+    # objects WITHOUT any attribute / with dunder-only attributes (the attribute mapping is empty but must still follow
+    # the dictionary strategy of the options), alone, shared, inside containers and inside other objects
+    e0 = A()
+    objs += [A(), [e0, e0, {"k": B()}], (DC(x=A(), y=B()), {1, 2})]
+    eh = B()
+    setattr(eh, "__only", 1)
+    objs.append([eh, A()])
+    # floats: NaN (== itself as a LEAF since graphtage 8b61c77), infinities, signed zero, integral floats next to ints/bools
+    nan, inf = float("nan"), float("inf")
+    objs += [nan, [nan], [nan, float("nan")], [inf, -inf], [-0.0, 0.0, 0], [1.0, 1, True, 0.0, False], {"a": nan, "b": [nan]},
+             {nan: 1}, {inf: 1, -inf: 2, 0.5: 3, 3: 4}, {nan: 1, 1: 2, 0: 3}, {2: 1, nan: 2, -1: 3, "s": 4, None: 5},
+             {nan, 1.5}, {inf, nan, 1}, {0.0: "z"}, {-0.0: "z"}, {1.0: "a", 2: "b"}, {1e20: 1, 10 ** 20 + 1: 2},
+             [1e300, 5e-324, -1e300], (nan, (nan,)), [[nan], [nan]], {"k": {"k": nan}}, [{nan}, {nan}]]
+    sn = [nan]
+    objs.append([sn, sn, nan])                  # the same NaN object reachable twice
     return objs
+
+
+def _ring(n, kind):
+    """n containers, each holding the next one; the last one holds the first (one cycle of length n)."""
+    if kind == "list":
+        cs = [[] for _ in range(n)]
+        for i in range(n):
+            cs[i].append(cs[(i + 1) % n])
+    elif kind == "listpad":                     # every member has siblings, so no level is "all leaves"
+        cs = [[i] for i in range(n)]
+        for i in range(n):
+            cs[i].append(cs[(i + 1) % n])
+            cs[i].append([i, "x"])
+    elif kind == "dict":
+        cs = [{} for _ in range(n)]
+        for i in range(n):
+            cs[i]["n"] = cs[(i + 1) % n]
+    elif kind == "dictpad":
+        cs = [{"i": i} for i in range(n)]
+        for i in range(n):
+            cs[i]["n"] = cs[(i + 1) % n]
+    elif kind == "mixed":                       # list -> dict -> tuple -> list -> ... (the tuples are closed last)
+        cs = [None] * n
+        for i in reversed(range(n)):
+            if i % 3 == 2 and i != n - 1:
+                cs[i] = (cs[i + 1],)
+            elif i % 3 == 1:
+                cs[i] = {}
+            else:
+                cs[i] = []
+        for i in range(n):
+            nxt = cs[(i + 1) % n]
+            if isinstance(cs[i], list):
+                cs[i].append(nxt)
+            elif isinstance(cs[i], dict):
+                cs[i]["n"] = nxt
+    elif kind == "custom":
+        cs = [(A if i % 2 else B)() for i in range(n)]
+        for i in range(n):
+            cs[i].next = cs[(i + 1) % n]
+    elif kind == "customlist":                  # object -> list -> object -> list ...
+        cs = [(A() if i % 2 == 0 else []) for i in range(n)]
+        for i in range(n):
+            nxt = cs[(i + 1) % n]
+            if isinstance(cs[i], list):
+                cs[i].append(nxt)
+            else:
+                cs[i].items = nxt
+    else:
+        raise ValueError(kind)
+    return cs[0]
+
+
+def _long_cycles(thorough=False):
+    """Cycles far longer / deeper than anything the random generator makes: rings of 16 / 64 / 300 containers, a ring reached
+    through a long acyclic tail, a ring whose members also share an acyclic sub-object.  Returns [(label, object)]."""
+    out = []
+    for n in (16, 64, 300):
+        out.append(("ring%d/list" % n, _ring(n, "list")))
+    for n in (16, 64):
+        out.append(("ring%d/listpad" % n, _ring(n, "listpad")))
+        out.append(("ring%d/dict" % n, _ring(n, "dict")))
+        out.append(("ring%d/mixed" % n, _ring(n, "mixed")))
+        out.append(("ring%d/custom" % n, _ring(n, "custom")))
+    out.append(("ring16/dictpad", _ring(16, "dictpad")))
+    out.append(("ring16/customlist", _ring(16, "customlist")))
+    out.append(("ring300/dict", _ring(300, "dict")))
+    if thorough:
+        # (a ring of 300 custom objects builds and copies fine, but its dump nests 4 JSON levels per object: beyond what the
+        # worker's json.dumps can encode under the default recursion limit -- a harness limit, so 150)
+        out.append(("ring300/mixed", _ring(300, "mixed")))
+        out.append(("ring150/custom", _ring(150, "custom")))
+        out.append(("ring150/listpad", _ring(150, "listpad")))
+    # lasso: an acyclic chain of 20 lists leading into a ring of 16
+    ring = _ring(16, "list")
+    tail = ring
+    for _ in range(20):
+        tail = [tail]
+    out.append(("lasso20+16/list", tail))
+    ringd = _ring(16, "dict")
+    out.append(("lasso/dict-in-list", [[[{"a": [ringd]}]]]))
+    # a ring whose members all point at one shared acyclic list as well
+    shared = [1, [2]]
+    cs = [[shared] for _ in range(16)]
+    for i in range(16):
+        cs[i].append(cs[(i + 1) % 16])
+    out.append(("ring16/list+shared", cs[0]))
+    # a self-referencing object deep inside custom objects
+    o = A()
+    cur = o
+    for i in range(15):
+        nxt = B() if i % 2 else A()
+        cur.child = nxt
+        cur.tag = i
+        cur = nxt
+    cur.me = cur
+    out.append(("custom-chain15+self", o))
+    o2 = A()
+    o2.inner = DC(x=[B()], y=None)
+    o2.inner.x[0].owner = o2.inner                  # cycle not through the outermost object
+    out.append(("custom-inner-cycle", [o2, 1]))
+    return out
+
+
+def _deep_dags(thorough=False):
+    """ACYCLIC object graphs, 16-20 levels deep, with heavy sharing (must build fast and never be reported as cyclic).
+    The unfolded size is kept small: a tree IR necessarily unfolds sharing, `[d, d]` nested k times has 2^k leaves."""
+    out = []
+    s = [1, 2]
+    lad = [s]
+    for _ in range(20):
+        lad = [lad, s, s]                           # one shared list at every one of 20 levels
+    out.append(("dag/ladder20", lad))
+    ev = ["x"]
+    cur = [ev]
+    for _ in range(19):
+        cur = [ev, cur]
+    out.append(("dag/same-object-at-20-depths", cur))
+    d = [1]
+    for i in range(20):
+        d = [d, d] if i % 4 == 3 else [d]           # 5 doublings over 20 levels: 32 copies of the innermost list
+    out.append(("dag/diamonds20", d))
+    f0, f1 = [0], [1]
+    for _ in range(13):
+        f0, f1 = f1, [f1, f0]                       # Fibonacci sharing: every object is used by the next two levels
+    out.append(("dag/fib13", f1))
+    b = [1]
+    for _ in range(8 if not thorough else 12):
+        b = [b, b]
+    out.append(("dag/binary%d" % (8 if not thorough else 12), b))
+    sd = {"v": 1}
+    dl = {"leaf": sd}
+    for i in range(10):
+        dl = {"a": dl, "s": sd} if i % 2 else [dl, sd, dl] if i == 4 else [dl, sd]
+    out.append(("dag/dict-ladder10", dl))
+    t = (1, (2,))
+    tl = [t]
+    for _ in range(16):
+        tl = (tl, t)
+    out.append(("dag/tuples16", tl))
+    oa = A()
+    oa.v = [1]
+    oc = [oa]
+    for i in range(16):
+        h = B() if i % 2 else A()
+        h.sub = oc
+        h.shared = oa
+        oc = h
+    out.append(("dag/custom16", oc))
+    return out
 
 
 def _outside_domain_cases():
@@ -669,6 +861,8 @@ def _outside_domain_cases():
     as a list).  Still pushed through the correspondence check (the model mirrors them); the monitor is silent."""
     objs = [{(1, 2): 1}, {3: 4, (1, 2): 1}, {(1, 2): 1, 3: 4}, {(1, 2)}, {frozenset([1])}, {frozenset(): 1, 2: 3},
             {(): 1, "": 2}, {(1, 2): 1, (0,): 2, "a": 3}, {A(): 1}, {A(), 1}]
+    # two DISTINCT NaN objects as keys of one dict (feature `nankeys2`): duplicate keys as data, the later value wins
+    objs += [{float("nan"): 1, float("nan"): 2}, [{float("nan"): "a", float("nan"): "b", 1: "c"}]]
     od = A()
     fs = frozenset([od])
     od.back = fs
@@ -683,6 +877,23 @@ def gen(rng, tier):
     for o in _edge_cases() + _outside_domain_cases():
         st = extract(o)
         cases.append({"store": st, "root": 0, "runs": _runs_for(rng, st, 3)})
+    # long cycles and deep DAGs (fixed shapes; `label` makes them recognisable in the distribution table; never shrunk into
+    # something else than a smaller store).  Option sets: defaults (cycle error expected), defaults + ignore_cycles
+    # (placeholder expected), and for the smaller ones the opposite dictionary / list strategy as well.
+    ign = dict(dflt, ign=True)
+    other = dict(ake=False, amk=False, ale=False, alesl=False, chk=True, ign=True)
+    match = dict(ake=True, amk=False, ale=True, alesl=False, chk=True, ign=False)
+    for label, o in _long_cycles(thorough):
+        st = extract(o)
+        big = sum(1 for c in st if c["t"] not in SCALARS) > 100
+        cases.append({"store": st, "root": 0, "label": label,
+                      "runs": _runs_for(rng, st, 0, opts_list=[dflt, ign] if big else [dflt, ign, other, match])})
+    for label, o in _deep_dags(thorough):
+        st = extract(o)
+        big = len(st) > 400 or label.startswith(("dag/fib", "dag/binary"))
+        cases.append({"store": st, "root": 0, "label": label,
+                      "runs": _runs_for(rng, st, 0, opts_list=[dflt] if big else [dflt, other, match])})
+    cases += _probe_cases(thorough)
     n_random = 420 if not thorough else 9000
     for k in range(n_random):
         name, prof, back = PROFILES[k % len(PROFILES)]
@@ -699,7 +910,30 @@ def gen(rng, tier):
         cases += _exhaustive(rng, 4, 2, all_opts_every=997)
     else:
         cases += _exhaustive(rng, 2, 2, all_opts_every=7)
+    # spread the fixed long / deep cases over the whole list: the engine cuts the list into one chunk per worker, and a
+    # regression that makes all rings hang should cost one watchdog period per worker, not twenty in a row
+    special = [c for c in cases if c.get("label") or "probe" in c]
+    rest = [c for c in cases if not (c.get("label") or "probe" in c)]
+    if special:
+        stride = max(1, len(rest) // len(special))
+        out = []
+        for i, c in enumerate(rest):
+            if i % stride == 0 and special:
+                out.append(special.pop(0))
+            out.append(c)
+        cases = out + special
     return cases
+
+
+def _probe_cases(thorough=False):
+    """Inputs whose trees are too deep to dump: monitor-only, fixed.  `list-depth` n: `[[[...1...]]]`; `dict-depth` n:
+    `{"k": {"k": ... 1}}`; `dict-eq` n: the same with the comparisons of `copy() == tree` counted."""
+    out = [{"probe": "list-depth", "n": 300}, {"probe": "list-depth", "n": 400}, {"probe": "list-depth", "n": 500},
+           {"probe": "dict-depth", "n": 300}, {"probe": "dict-depth", "n": 1100},
+           {"probe": "dict-eq", "n": 8}, {"probe": "dict-eq", "n": 16}]
+    if thorough:
+        out += [{"probe": "list-depth", "n": 330}, {"probe": "tuple-depth", "n": 500}, {"probe": "dict-eq", "n": 18}]
+    return out
 
 
 def _shapes(n, max_slots):
@@ -916,9 +1150,198 @@ def _impl_diff(run, root, o, cellof):
     return r
 
 
+_USER_BUILDER = []
+
+
+def _user_builder():
+    """A user-defined builder in the style of the library documentation (`docs/builder.rst`, `test_custom_builder`): the
+    custom classes A / B / DC are expanded to the values of their public attributes (in `dir()` order) and built as a list
+    carrying the list options.  Defined once per worker process, after graphtage's own builder classes."""
+    if not _USER_BUILDER:
+        from graphtage.builder import BasicBuilder, Builder
+
+        class UserBuilder(BasicBuilder):
+            @Builder.expander(A)
+            @Builder.expander(B)
+            @Builder.expander(DC)
+            def expand_custom(self, obj):
+                for n in _custom_attrs(obj):
+                    if not n.startswith("__"):
+                        yield getattr(obj, n)
+
+            @Builder.builder(A)
+            @Builder.builder(B)
+            @Builder.builder(DC)
+            def build_custom(self, obj, children):
+                return self.build_list(obj, children)
+
+        _USER_BUILDER.append(UserBuilder)
+    return _USER_BUILDER[0]
+
+
+def _userb_reference_store(store):
+    """What UserBuilder must produce = what BasicBuilder produces on the same graph with every custom object replaced by
+    the LIST of its public attribute values (same cell ids, so placeholders are comparable)."""
+    out = []
+    for c in store:
+        if c["t"] == "custom":
+            out.append({"t": "list", "sub": False, "cls": None, "mro": ["list", "object"],
+                        "v": [j for n, j in c["v"] if not n.startswith("__")]})
+        else:
+            out.append(c)
+    return out
+
+
+def _impl_userb(run, root, o, cellof, store):
+    from graphtage.builder import BasicBuilder
+    r = {}
+    ok, t = _guard(lambda: _user_builder()(o).build_tree(root))
+    r["err"] = "ok" if ok else t
+    if ok:
+        r["tree"] = _dump_tree(t, cellof)
+    ref_store = _userb_reference_store(store)
+    ref_root, ref_objs = materialise(ref_store, 0)
+    ref_cellof = {id(ref_objs[i]): i for i, c in enumerate(ref_store) if c["t"] not in SCALARS}
+    ok, t2 = _guard(lambda: BasicBuilder(_mk_options(run["opts"])).build_tree(ref_root))
+    r["ref"] = _dump_tree(t2, ref_cellof) if ok else {"err": t2}
+    return r
+
+
+def _is_clean(node, memo):
+    """no PyObj / CyclicReference below `node` (the two node classes whose `==` is identity: known findings)"""
+    from graphtage.builder import CyclicReference
+    from graphtage.pydiff import PyObj
+    todo = [node]
+    while todo:
+        n = todo.pop()
+        if isinstance(n, (CyclicReference, PyObj)):
+            return False
+        todo.extend(n.children())
+    return True
+
+
+def _clean_subtree_copies(tree):
+    """`copy() == node` on every MAXIMAL sub-tree without PyObj / CyclicReference of a tree that contains one (for such
+    trees `copy() == tree` itself carries no information).  Returns the failures as [node class, outcome]."""
+    bad = []
+    n_checked = 0
+    todo = [tree]
+    while todo:
+        n = todo.pop()
+        if n.is_leaf:
+            continue
+        if _is_clean(n, None):
+            n_checked += 1
+            ok, c = _guard(n.copy)
+            if not ok:
+                bad.append([type(n).__name__, "copy-raises/" + c])
+                continue
+            ok, e = _guard(lambda: bool(c == n))
+            if not ok:
+                bad.append([type(n).__name__, "eq-raises/" + e])
+            elif not e:
+                bad.append([type(n).__name__, "neq"])
+        else:
+            todo.extend(n.children())
+    return n_checked, bad
+
+
+def _to_obj_holds_nodes(tree):
+    """`to_obj()` is documented (tree.py) as "a pure Python representation ... container nodes should recursively call to_obj
+    on all of their children".  For every node of the tree: does the value its OWN to_obj() returns hold a TreeNode at its top
+    level (as element, key or value)?  Returns the sorted qualified names of the guilty to_obj implementations."""
+    from graphtage import TreeNode
+    guilty = set()
+    todo = [tree]
+    count = 0
+    while todo:
+        n = todo.pop()
+        todo.extend(n.children())
+        count += 1
+        if count > 4000:
+            break
+        try:
+            v = n.to_obj()
+        except BaseException as e:          # reported by the root-level to_obj check
+            if type(e).__name__ == "Hang":
+                raise
+            continue
+        if isinstance(v, dict):
+            parts = list(v.keys()) + list(v.values())
+        elif isinstance(v, (list, tuple, set, frozenset)):
+            parts = list(v)
+        else:
+            parts = [v]
+        if any(isinstance(x, TreeNode) for x in parts):
+            guilty.add(type(n).to_obj.__qualname__)
+    return sorted(guilty)
+
+
+def _nest(kind, n):
+    x = 1
+    for _ in range(n):
+        x = [x] if kind == "list" else (x,) if kind == "tuple" else {"k": x}
+    return x
+
+
+def _count_nodes(tree):
+    n = 0
+    todo = [tree]
+    while todo:
+        x = todo.pop()
+        n += 1
+        todo.extend(x.children())
+    return n
+
+
+def _impl_probe(case):
+    """Deep inputs, summarised (no dumps).  Runs with the interpreter's DEFAULT recursion limit: that limit is the bound
+    being probed."""
+    from graphtage.builder import BasicBuilder
+    from graphtage import pydiff, json as gjson, KeyValuePairNode
+    kind, n = case["probe"], case["n"]
+    shape = "dict" if kind.startswith("dict") else kind.split("-")[0]
+    obj = _nest(shape, n)
+    out = {"probe": kind, "n": n, "entries": {}}
+    for entry, f in (("basic", lambda: BasicBuilder().build_tree(obj)), ("pydiff", lambda: pydiff.build_tree(obj)),
+                     ("json", lambda: gjson.build_tree(obj))):
+        ok, tree = _guard(f)
+        r = {"err": "ok" if ok else tree}
+        out["entries"][entry] = r
+        if not ok:
+            continue
+        r["nodes"] = _count_nodes(tree)
+        ok, v = _guard(tree.to_obj)
+        r["toobj"] = ("eq" if v == obj else "neq") if ok else {"err": v}
+        ok, cp = _guard(tree.copy)
+        r["copy"] = "ok" if ok else {"err": cp}
+        if not ok:
+            continue
+        if shape == "dict" and kind != "dict-eq":
+            continue                    # `==` on dicts nested this deep does not finish (see dict-eq)
+        calls = [0]
+        orig = KeyValuePairNode.__eq__
+
+        def counting(a, b, _orig=orig, _calls=calls):
+            _calls[0] += 1
+            return _orig(a, b)
+        if kind == "dict-eq":
+            KeyValuePairNode.__eq__ = counting
+        try:
+            ok, e = _guard(lambda: bool(cp == tree))
+        finally:
+            KeyValuePairNode.__eq__ = orig
+        r["copy_eq"] = e if ok else {"err": e}
+        if kind == "dict-eq":
+            r["eq_calls"] = calls[0]
+    return out
+
+
 def impl(case):
     from graphtage.builder import BasicBuilder
     from graphtage import pydiff, json as gjson
+    if "probe" in case:
+        return _impl_probe(case)
     store = case["store"]
     root, objs = materialise(store, case["root"])
     back = extract(root)
@@ -940,6 +1363,9 @@ def impl(case):
         if entry == "diff":
             out.append(_impl_diff(run, root, o, cellof))
             continue
+        if entry == "userb":
+            out.append(_impl_userb(run, root, o, cellof, store))
+            continue
         if entry == "basic":
             f = lambda: BasicBuilder(o).build_tree(root)
         elif entry == "pydiff":
@@ -953,6 +1379,9 @@ def impl(case):
         r = {"err": "ok", "tree": _dump_tree(tree, cellof)}
         ok, v = _guard(tree.to_obj)
         r["toobj"] = _dump_obj(v, cellof) if ok else {"err": v}
+        r["x_holds_nodes"] = _to_obj_holds_nodes(tree)
+        if _contains_tag(r["tree"], "cyc") or _contains_tag(r["tree"], "pyobj"):
+            r["x_clean_checked"], r["x_clean_bad"] = _clean_subtree_copies(tree)
         ok, cp = _guard(tree.copy)
         if not ok:
             r["copy"] = {"err": cp}
@@ -969,8 +1398,12 @@ def impl(case):
 # --------------------------------------------------------------------------------------------------
 # model side
 
+MODELLED = ("basic", "pydiff", "json")
+MODEL_FIELDS = ("err", "tree", "toobj", "copy", "copy_eq", "copy_toobj")      # `x_*` fields are monitor-only observations
+
+
 def to_model(case, obs):
-    if not isinstance(obs, dict) or "runs" not in obs:
+    if "probe" in case or not isinstance(obs, dict) or "runs" not in obs:
         return None
     if store_features(case["store"]) & {"ckey", "cmember"}:
         return None          # outside C18's domain and outside the model (needs str() of container nodes)
@@ -981,30 +1414,38 @@ def to_model(case, obs):
             d["v"] = obs["set_orders"][str(i)]
         store.append(d)
     return {"s": "build", "store": store, "root": case["root"],
-            "runs": [r for r in case["runs"] if r["entry"] != "diff"]}
+            "runs": [r for r in case["runs"] if r["entry"] in MODELLED]}
 
 
 def expect(case, obs):
-    return [r for run, r in zip(case["runs"], obs["runs"]) if run["entry"] != "diff"]
+    return [{k: v for k, v in r.items() if k in MODEL_FIELDS}
+            for run, r in zip(case["runs"], obs["runs"]) if run["entry"] in MODELLED]
 
 
 # --------------------------------------------------------------------------------------------------
 # monitor: C18's statement evaluated directly on the observations
 
-def _contains_cyc(d):
-    if isinstance(d, list):
-        if d and d[0] == "cyc":
-            return True
-        return any(_contains_cyc(x) for x in d)
-    return False
-
-
 def _contains_tag(d, tag):
-    if isinstance(d, list):
-        if d and d[0] == tag:
-            return True
-        return any(_contains_tag(x, tag) for x in d)
+    todo = [d]                                   # iterative: dumps of 300-deep trees nest 600 levels
+    while todo:
+        x = todo.pop()
+        if isinstance(x, list):
+            if x and x[0] == tag:
+                return True
+            todo.extend(x)
     return False
+
+
+def _contains_cyc(d):
+    return _contains_tag(d, "cyc")
+
+
+def _deep_ok():
+    """The monitor walks dumps recursively; it runs in the engine process (never in the worker, where the interpreter's
+    default limit is part of what is observed), so the limit can be raised safely."""
+    import sys
+    if sys.getrecursionlimit() < 20000:
+        sys.setrecursionlimit(20000)
 
 
 def _in_domain(entry, feats, store):
@@ -1044,19 +1485,139 @@ def _monitor_diff(run, r, hit):
             f"pydiff.diff(side={side}): the FROM tree differs from pydiff.build_tree(from, options): {r['from_tree']!r} vs {rf!r}")
 
 
+def _check_options(d, o, entry, hit):
+    """Every node of a freshly built tree carries the options it was built under: lists the two list flags, mappings the
+    dictionary strategy (allow_key_edits=False -> fixed-key mapping; else a DictNode-like mapping whose auto_match_keys is the
+    option), key/value pairs `allow_key_edits`.  (MultiSetNode takes no option in `build_set`.)"""
+    seen = set()
+    todo = [d]
+    while todo:
+        x = todo.pop()
+        if not isinstance(x, list) or not x or not isinstance(x[0], str):
+            continue
+        tag = x[0]
+        bad = None
+        if tag == "list":
+            if (x[2], x[3]) != (o["ale"], o["alesl"]):
+                bad = f"list flags {(x[2], x[3])} instead of {(o['ale'], o['alesl'])}"
+            todo.extend(x[4])
+        elif tag == "dict":
+            if not o["ake"]:
+                bad = "a key-editable mapping although allow_key_edits=False"
+            elif x[2] != o["amk"]:
+                bad = f"auto_match_keys={x[2]} instead of {o['amk']}"
+            todo.extend(x[3])
+        elif tag == "fdict":
+            if o["ake"]:
+                bad = "a fixed-key mapping although allow_key_edits=True"
+            todo.extend(x[2])
+        elif tag == "kvp":
+            if x[2] != o["ake"]:
+                bad = f"allow_key_edits={x[2]} instead of {o['ake']}"
+            todo.extend(x[3:5])
+        elif tag == "mset":
+            todo.extend(x[3])
+        elif tag == "pyobj":
+            todo.extend(x[2:4])
+        if bad and (x[1], bad) not in seen:
+            seen.add((x[1], bad))
+            hit("options-not-applied/" + x[1], f"{entry}: a {x[1]} of the built tree has {bad}")
+
+
+def _recursion(err):
+    return err == "RecursionError"
+
+
+def _monitor_probe(case, obs, hit):
+    """Deep acyclic in-domain inputs: every entry point must build, read back, copy, and the copy must be equal."""
+    kind, n = case["probe"], case["n"]
+    at = f"@{kind}-{n}"
+    if not isinstance(obs, dict) or "entries" not in obs:
+        if isinstance(obs, dict) and obs.get("error") == "hang":
+            hit("hang" + at, f"probe {kind} {n}: no result within the watchdog")
+        else:
+            hit("crash/" + str(obs.get("exc") if isinstance(obs, dict) else "?") + at, "worker failed: %r" % (obs,))
+        return
+    shape = "dict nested" if kind.startswith("dict") else kind.split("-")[0] + " nested"
+    for entry, r in sorted(obs["entries"].items()):
+        err = r["err"]
+        if err != "ok":
+            pre = "recursion-limit/build" if _recursion(err) else "build-raises/" + err
+            hit(f"{pre}{at}", f"{entry}: build_tree of a {shape} {n} deep raised {err}")
+            continue
+        t = r.get("toobj")
+        if isinstance(t, dict):
+            pre = "recursion-limit/to_obj" if _recursion(t["err"]) else "to_obj-raises/" + t["err"]
+            hit(f"{pre}{at}", f"{entry}: to_obj() of a {shape} {n} deep raised {t['err']}")
+        elif t != "eq":
+            hit("to_obj-neq" + at, f"{entry}: to_obj() of a {shape} {n} deep differs from the input")
+        c = r.get("copy")
+        if isinstance(c, dict):
+            pre = "recursion-limit/copy" if _recursion(c["err"]) else "copy-raises/" + c["err"]
+            hit(f"{pre}{at}", f"{entry}: copy() of a {shape} {n} deep raised {c['err']}")
+            continue
+        if "copy_eq" in r:
+            e = r["copy_eq"]
+            if isinstance(e, dict):
+                pre = "recursion-limit/copy-eq" if _recursion(e["err"]) else "copy-eq-raises/" + e["err"]
+                hit(f"{pre}{at}", f"{entry}: copy() == tree of a {shape} {n} deep raised {e['err']}")
+            elif e is not True:
+                hit("copy-neq" + at, f"{entry}: copy() == tree is {e!r}")
+        if "eq_calls" in r:
+            # a linear-size tree: `==` may look at every node a few times, quadratic at the very worst
+            nodes = r["nodes"]
+            if r["eq_calls"] > 4 * nodes * nodes:
+                hit("copy-eq-exponential" + at,
+                    f"{entry}: copy() == tree on a {shape} {n} deep ({nodes} nodes) made {r['eq_calls']} key/value-pair "
+                    f"comparisons (about 2^{n}: collections.Counter.__eq__ looks every element up from both sides, and each "
+                    f"lookup compares the nested mapping again); depth 20 takes 3 s, depth 24 over 45 s")
+
+
+def _unordered_msets(d):
+    """a tree dump with the children of every MultiSetNode sorted: the reference of `userb` is built from a second
+    materialisation of the store, and the iteration order of a set depends on the objects (a NaN hashes by address)"""
+    import json
+    if isinstance(d, list):
+        x = [_unordered_msets(c) for c in d]
+        if x and x[0] == "mset":
+            x[3] = sorted(x[3], key=lambda c: json.dumps(c, sort_keys=True))
+        return x
+    return d
+
+
+def _monitor_userb(run, r, store, hit):
+    """A user-defined Builder subclass must convert the custom objects by ITS OWN handlers, whatever other builder classes
+    have seen these types before in the process."""
+    ref = r["ref"]
+    want = ref["err"] if isinstance(ref, dict) else "ok"
+    if r["err"] != want:
+        hit("user-builder/outcome/" + r["err"],
+            f"UserBuilder (own expander/builder for the custom classes): {r['err']}, but BasicBuilder on the same graph with "
+            f"the objects replaced by lists gives {want}")
+    elif want == "ok" and _unordered_msets(r["tree"]) != _unordered_msets(ref):
+        hit("user-builder/tree", f"UserBuilder's tree differs from the reference: {r['tree']!r} vs {ref!r}")
+
+
 def monitor(case, obs):
+    _deep_ok()
     hits = []
 
     def hit(key, what):
         hits.append({"prop": "C18", "key": key, "what": what})
 
+    if "probe" in case:
+        _monitor_probe(case, obs, hit)
+        return hits
+    at = "@" + case["label"] if case.get("label") else ""
     if not isinstance(obs, dict) or "runs" not in obs:
-        if isinstance(obs, dict) and obs.get("error") == "hang":
-            hit("hang", "building / copying did not terminate within the watchdog")
+        if isinstance(obs, dict) and (obs.get("error") == "hang" or
+                                      (obs.get("exc") == "WorkerDied" and "timeout" in str(obs.get("msg")))):
+            # one key for all inputs (the engine confirms every distinct key with a 5x longer run)
+            hit("hang", "building / copying did not terminate within the watchdog" + (" (input: " + case["label"] + ")" if at else ""))
         elif isinstance(obs, dict) and obs.get("exc") == "MaterialiseMismatch":
             pass
         else:
-            hit("crash/" + str(obs.get("exc") if isinstance(obs, dict) else "?"), "worker failed: %r" % (obs,))
+            hit("crash/" + str(obs.get("exc") if isinstance(obs, dict) else "?") + at, "worker failed: %r" % (obs,))
         return hits
     store = case["store"]
     cyc = has_cycle(store)
@@ -1064,15 +1625,24 @@ def monitor(case, obs):
     container_key = bool(feats & {"ckey", "cmember"})
     if container_key:
         return hits                              # outside the domain of C18 (see NOTES)
+    dupnan = "nankeys2" in feats                 # duplicate keys as data: the VALUE checks do not apply (see store_features)
     by_opts = {}
     for run, r in zip(case["runs"], obs["runs"]):
         entry, o = run["entry"], run["opts"]
         if entry == "diff":
             _monitor_diff(run, r, hit)
             continue
+        if entry == "userb":
+            _monitor_userb(run, r, store, hit)
+            if r["err"] == "ok":
+                _check_options(r["tree"], o, entry, hit)
+            continue
         tagsfx = "/container-key" if container_key else ""
         indom = _in_domain(entry, feats, store)
         err = r["err"]
+        if _recursion(err):
+            hit("recursion-limit/build" + at, f"{entry}: build_tree raised RecursionError")
+            continue
         if cyc:
             if not o["chk"]:
                 continue                         # documented opt-out
@@ -1100,8 +1670,9 @@ def monitor(case, obs):
                 hit("placeholder-on-acyclic", f"{entry}: acyclic input produced a cycle placeholder")
             # value round trip
             if isinstance(r["toobj"], dict):
-                hit("to_obj-raises/" + r["toobj"]["err"] + tagsfx, f"{entry}: to_obj() raised {r['toobj']['err']}")
-            elif indom:
+                pre = "recursion-limit/to_obj" + at if _recursion(r["toobj"]["err"]) else "to_obj-raises/" + r["toobj"]["err"]
+                hit(pre + tagsfx, f"{entry}: to_obj() raised {r['toobj']['err']}")
+            elif indom and not dupnan:
                 want = norm_value(store, case["root"])
                 got = obj_key(r["toobj"])
                 if want != got:
@@ -1109,22 +1680,37 @@ def monitor(case, obs):
                     hit("to_obj-neq" + sfx, f"{entry}: to_obj() differs from the original value: {r['toobj']!r}")
             if indom:
                 by_opts.setdefault(tuple(o[k] for k in OPT_KEYS), {})[entry] = r["tree"]
+        if err != "ok":
+            continue
+        # the build options reach every node (any successfully built tree, cyclic or not)
+        _check_options(r["tree"], o, entry, hit)
+        # to_obj() values are plain Python data: no TreeNode inside (keyed by the to_obj implementation that returned one)
+        for q in r.get("x_holds_nodes", []):
+            hit("to_obj-holds-node/" + q, f"{entry}: the value returned by {q}() holds tree NODES instead of their plain values")
         # deep copy (any successfully built tree)
-        if err == "ok":
-            cp = r.get("copy")
-            if isinstance(cp, dict):
-                hit("copy-raises/" + cp["err"], f"{entry}: copy() raised {cp['err']}")
-            else:
-                eq = r.get("copy_eq")
-                if eq is not True:
-                    # the two recorded findings are about node EQUALITY of placeholder / PyObj nodes: the copy itself is
-                    # node for node the tree; a copy that differs structurally is something else
-                    same = (_shape(cp) == _shape(r["tree"]))
-                    sfx = "/differs-structurally" if not same else \
-                        "/cyclicref" if _contains_cyc(r["tree"]) else "/pyobj" if _contains_tag(r["tree"], "pyobj") else ""
-                    hit("copy-neq" + sfx, f"{entry}: copy() == tree is {eq!r}" + ("" if same else "; the copy's structure differs from the tree's"))
-                if r.get("copy_toobj") != r.get("toobj") and not _contains_cyc(r["tree"]):
-                    hit("copy-to_obj-neq", f"{entry}: copy().to_obj() differs from to_obj()")
+        cp = r.get("copy")
+        if isinstance(cp, dict):
+            pre = "recursion-limit/copy" + at if _recursion(cp["err"]) else "copy-raises/" + cp["err"]
+            hit(pre, f"{entry}: copy() raised {cp['err']}")
+        else:
+            eq = r.get("copy_eq")
+            if isinstance(eq, dict):
+                pre = "recursion-limit/copy-eq" + at if _recursion(eq["err"]) else "copy-eq-raises/" + eq["err"]
+                hit(pre, f"{entry}: copy() == tree raised {eq['err']}")
+            elif eq is not True:
+                # the two recorded findings are about node EQUALITY of placeholder / PyObj nodes: the copy itself is
+                # node for node the tree; a copy that differs structurally is something else
+                same = (_shape(cp) == _shape(r["tree"]))
+                sfx = "/differs-structurally" if not same else \
+                    "/cyclicref" if _contains_cyc(r["tree"]) else "/pyobj" if _contains_tag(r["tree"], "pyobj") else ""
+                hit("copy-neq" + sfx, f"{entry}: copy() == tree is {eq!r}" + ("" if same else "; the copy's structure differs from the tree's"))
+            if r.get("copy_toobj") != r.get("toobj") and not _contains_cyc(r["tree"]):
+                hit("copy-to_obj-neq", f"{entry}: copy().to_obj() differs from to_obj()")
+        # ... and, where the tree holds a placeholder / PyObj (whose `==` is identity: the two findings above), on every maximal
+        # sub-tree that holds neither
+        for cls, what in r.get("x_clean_bad", []):
+            pre = "recursion-limit/copy-eq" + at if what.endswith("RecursionError") else "copy-neq/clean-subtree/" + cls
+            hit(pre, f"{entry}: copy() of a {cls} sub-tree without placeholder / PyObj: {what}")
     # identical through every entry point (same options, every entry whose domain contains the input)
     for key, trees in by_opts.items():
         ents = sorted(trees)
@@ -1136,6 +1722,10 @@ def monitor(case, obs):
 
 
 def classify(case, obs):
+    if "probe" in case:
+        return "probe/%s-%d" % (case["probe"], case["n"])
+    if case.get("label"):
+        return "fixed/" + case["label"]
     store = case["store"]
     feats = store_features(store)
     nc = sum(1 for c in store if c["t"] not in SCALARS)
@@ -1146,16 +1736,24 @@ def classify(case, obs):
 
 
 def nontrivial(case, obs):
-    return any(c["t"] not in SCALARS for c in case["store"])
+    return "probe" in case or any(c["t"] not in SCALARS for c in case["store"])
 
 
 def shrink(case):
+    if "probe" in case:
+        return
     store = case["store"]
     runs = case["runs"]
+    if len(store) > 120:
+        # long rings / deep DAGs: only fewer runs (slot-by-slot shrinking of a 300-ring costs a worker round per slot)
+        if len(runs) > 1:
+            for i in range(len(runs)):
+                yield dict(case, runs=[runs[i]])
+        return
     # fewer runs
     if len(runs) > 1:
         for i in range(len(runs)):
-            yield {"store": store, "root": 0, "runs": [runs[i]]}
+            yield dict(case, runs=[runs[i]])
     # drop one slot of one container
     for i, c in enumerate(store):
         if c["t"] in SCALARS:
